@@ -259,7 +259,8 @@ func (vc *VC) constrainSV(v *SV) {
 					implies(eq(c[0], bvLit(refBits, 0)), eq(c[2], bvLit(64, 0)))))
 			}
 		case *types.Pointer:
-			vc.assume(and(app("bvsle", bvLit(64, 0), c[1]), app("bvslt", c[1], bvLit(64, 1<<40))))
+			vc.assume(and(app("bvsle", bvLit(64, 0), c[1]), app("bvslt", c[1], bvLit(64, 1<<40)),
+				implies(eq(c[0], bvLit(refBits, 0)), eq(c[1], bvLit(64, 0)))))
 		case *types.Map, *types.Chan:
 			// maps and channels are whole objects (no interior references)
 			vc.assume(eq(c[1], bvLit(64, 0)))
